@@ -137,8 +137,8 @@ if bdir.exists():
             continue
         e0 = hunks((sd / "patch.diff").read_text())
         edits = None
-        for keep in (3, 1, 0):
-            e = trim_context(e0, keep)
+        for nctx in (3, 1, 0):
+            e = trim_context(e0, nctx)
             if any(not x["old"].strip() for x in e):
                 continue
             tmp = Path(tempfile.mkdtemp(prefix="pta-gen-"))
